@@ -254,6 +254,18 @@ Proof.
   rewrite comp_extract_fold, ctx_obs_eqb_refl. reflexivity.
 Qed.
 
+(* ---- purity probe lines: the model predicts PURE, which the clause accepts (the probe itself is a
+   run-time check of the purity assumption on the C++, not a theorem) *)
+Theorem model_meets_spec_purity l : parse_case l = Some CPur -> run_spec l (run_model l) = [].
+Proof. intros H. unfold run_spec, run_model. rewrite H. reflexivity. Qed.
+
+Example purity_case_parses : parse_case [tag "PURITY"; TZ 8; TZ 4; TZ 100; TZ 3] = Some CPur.
+Proof. reflexivity. Qed.
+Example purity_fires_race : run_spec [tag "PURITY"; TZ 8; TZ 4; TZ 100; TZ 3] [tag "RACE"; TB []] = fail "purity:data_race".
+Proof. reflexivity. Qed.
+Example purity_fires_differs : run_spec [tag "PURITY"; TZ 8; TZ 4; TZ 100; TZ 3] [tag "DIFFERS"; TB []] = fail "purity:result_differs".
+Proof. reflexivity. Qed.
+
 (* non-vacuity of the checkers: they do reject wrong observations *)
 Example spec_rejects_wrong_observations :
   spec_hdr_ok (bs "a=1") None (mk_hdr_obs [] true None) <> [] /\
